@@ -1,0 +1,90 @@
+//go:build verif
+
+package goat
+
+import (
+	"go/printer"
+
+	"github.com/monshunter/goat/pkg/config"
+	"github.com/monshunter/goat/pkg/diff"
+	"github.com/monshunter/goat/pkg/maininfo"
+)
+
+// Verification hooks (build tag verif): thin exported wrappers, no behaviour of their own.
+
+func VerifHandleGoatDelete(cfg *printer.Config, content, importPath, alias string) (int, string, error) {
+	return handleGoatDelete(cfg, content, importPath, alias)
+}
+
+func VerifHandleGoatInsert(cfg *printer.Config, content, importPath, alias string) (int, string, error) {
+	return handleGoatInsert(cfg, content, importPath, alias)
+}
+
+func VerifResetGoatGenerate(content string) (int, string, error) {
+	return resetGoatGenerate(content)
+}
+
+func VerifResetGoatMain(cfg *printer.Config, content, importPath, alias string) (int, string, error) {
+	return resetGoatMain(cfg, content, importPath, alias)
+}
+
+// VerifCleanPrepareContent runs CleanExecutor.prepareContent on one file.
+func VerifCleanPrepareContent(cfg *config.Config, importPath string, filename string) (string, bool, error) {
+	c := &CleanExecutor{cfg: cfg, goatImportPath: importPath, goatPackageAlias: cfg.GoatPackageAlias}
+	return c.prepareContent(filename)
+}
+
+// VerifPatchPrepareContent runs PatchExecutor.prepareContent on one file.
+// It returns the file name and content of the result and the executor's changed flag.
+func VerifPatchPrepareContent(cfg *config.Config, importPath string, mains []maininfo.MainPackageInfo, filename string) (string, string, bool, error) {
+	p := &PatchExecutor{cfg: cfg, goatImportPath: importPath, goatPackageAlias: cfg.GoatPackageAlias,
+		mainPackageInfos: mains, fileTrackIdStartMap: map[string]trackIdxInterval{}, filesContents: map[string]string{}}
+	gf, err := p.prepareContent(filename)
+	return gf.filename, gf.content, p.changed, err
+}
+
+// VerifPatchReplaceTracks runs PatchExecutor.replaceTracks on the given contents and returns
+// the total, the per-file intervals and the new contents.
+func VerifPatchReplaceTracks(cfg *config.Config, goModule string, contents map[string]string) (int, map[string][2]int, map[string]string, error) {
+	p := &PatchExecutor{cfg: cfg, goModule: goModule, fileTrackIdStartMap: map[string]trackIdxInterval{}, filesContents: contents}
+	n, err := p.replaceTracks()
+	iv := map[string][2]int{}
+	for k, v := range p.fileTrackIdStartMap {
+		iv[k] = [2]int{v.start, v.end}
+	}
+	return n, iv, p.filesContents, err
+}
+
+func verifIntervals(m map[string][2]int) map[string]trackIdxInterval {
+	r := make(map[string]trackIdxInterval, len(m))
+	for k, v := range m {
+		r[k] = trackIdxInterval{start: v[0], end: v[1]}
+	}
+	return r
+}
+
+// VerifComponentTrackIdxs exposes getComponentTrackIdxs (ids per main, in main order).
+func VerifComponentTrackIdxs(intervals map[string][2]int, mains []maininfo.MainPackageInfo) [][]int {
+	res := getComponentTrackIdxs(verifIntervals(intervals), mains)
+	out := make([][]int, len(res))
+	for i, c := range res {
+		out[i] = c.trackIdx
+	}
+	return out
+}
+
+// VerifTotalTrackIdxs exposes getTotalTrackIdxs.
+func VerifTotalTrackIdxs(intervals map[string][2]int) []int {
+	return getTotalTrackIdxs(verifIntervals(intervals))
+}
+
+// VerifPrepareFiles exposes prepareFiles (relative to the current directory).
+func VerifPrepareFiles(cfg *config.Config) ([]string, error) { return prepareFiles(cfg) }
+
+// VerifGetDiff exposes getDiff (relative to the current directory).
+func VerifGetDiff(cfg *config.Config) ([]*diff.FileChange, error) { return getDiff(cfg) }
+
+// VerifMainPackageInfos exposes getMainPackageInfos.
+func VerifMainPackageInfos(cfg *config.Config, root, module string) ([]maininfo.MainPackageInfo, error) {
+	return getMainPackageInfos(cfg, root, module)
+}
